@@ -2,17 +2,22 @@
 
 P  Lean theorems over the reals (lean/MjProof/Props/C15.lean) about the hand model of the support mappings of
    src/engine/engine_collision_convex.c (lean/MjProof/Model/Support.lean) and about the certificate checkers
-   sepOK / penOK defined in the same model file.
+   sepOK / sepLowerOK / penOK / penDepthOK / innerBallOK defined in the same model file.
 T  bitwise correspondence of the model's support functions (run on Float by lean/Drivers/C15.lean) with the
    compiled support functions that mjc_initCCDObj / mjc_ccd install (harness/c/c15_gjk.c calls them through
    obj.support), incl. the exhaustive mesh support and box vertindex.
 S  property oracle: the real mjc_ccd / mj_geomDistance / mjc_Convex (native path; the libccd path is stubbed in this
    build) are run on generated geom pairs (all 25 ordered kind pairs; separated, near-touching, penetrating,
-   axis-aligned, scaled, far from the origin, coincident centres) in both geom orders; every reported
-   (distance, witness points / contact) is accepted only if the Lean certificate checker (same definitions, on
-   Float) accepts it; reported depths are additionally attacked by a direction search (a direction with a smaller
-   overlap refutes the reported depth: Props reported_depth_refuted) and "touching / no contact" answers by an
-   inner-ball certificate (a ball inside both shapes proves a positive depth).
+   axis-aligned or random frames, two scales, coincident centres) in both geom orders.  Every answer is judged by
+   the Lean checkers (same definitions as in the theorems, compiled, on Float):
+     separated   sepOK on the reported witness points (shrunk into the geoms when the solver left them outside) with
+                 the reported or a searched direction: certified bracket of the true distance; sepLowerOK refutes a
+                 reported distance that is below a certified lower bound;
+     penetrating penDepthOK along the reported normal (the depth is not too small) and a direction search whose best
+                 direction, evaluated by the Lean model, refutes a depth that is too large (reported_depth_refuted);
+     touching / no contact / distmax answers: refuted by a separating direction or by an inner ball
+                 (depth_lower_of_inner_ball).
+   Alarms for "distance too small", "depth too large", "touching but penetrating" are therefore backed by a theorem.
 """
 import math
 import struct
@@ -22,25 +27,34 @@ USES_GEN = False
 
 META = {
     "technique": "Lean 4 proofs over the reals about a hand model of the support mappings (bitwise-tied to the compiled "
-                 "functions on every run) + verified certificate checkers (witness points + support functions => bracket of the "
-                 "true distance / upper bound of the penetration depth) evaluated by the compiled Lean model on the outputs of the "
-                 "real mjc_ccd / mj_geomDistance / mjc_Convex in both geom orders + direction search and inner-ball certificates",
+                 "functions on every run) + verified certificate checkers (witness points / directions + support functions => "
+                 "bracket of the true distance, upper and lower bounds of the penetration depth) evaluated by the compiled Lean "
+                 "model on the outputs of the real mjc_ccd / mj_geomDistance / mjc_Convex in both geom orders",
     "text": "Proved over the reals, for every well-formed geom pose (orthogonal frame, admissible sizes) and every unit direction: "
             "each support function of engine_collision_convex.c (sphere, capsule, ellipsoid, cylinder, box, the shrunken point/line "
             "supports of mjc_ccd, and the exhaustive mesh support) returns a point of the shape that maximises <d,.> over the shape "
             "(explicit membership predicates; cylinder: up to radius*1e-15 in its degenerate branch). Proved: whenever the checker "
-            "sepOK accepts witness points and a reported distance, the true distance (infimum over the two point sets) lies in "
-            "[bound, len+slack] and the reported distance is within 2*tol+slack of it; whenever penOK accepts, translating geom 1 by "
-            "more than the overlap along the reported normal separates the geoms (so the depth is at most that overlap, hence at most "
-            "-dist+2*tol) and a translation of the reported length does not separate; a direction with smaller overlap refutes a "
-            "reported depth; a ball contained in both shapes bounds the depth from below; two certified runs with the geoms swapped "
-            "report the same distance and opposite witness vectors within the certified gaps. The GJK/EPA iterations are NOT modelled: "
+            "sepOK accepts witness points, a direction and a reported distance, the true distance (infimum over the two point sets) "
+            "lies in [bound, len+slack] and the reported distance is within 2*tol+slack of it; a direction accepted by sepLowerOK "
+            "bounds the distance of every pair of points from below; whenever penDepthOK / penOK accept, translating geom 1 by more "
+            "than the overlap along the reported normal separates the geoms (the depth is at most -dist+tol) and (penOK) a "
+            "translation of the reported length does not separate; a direction with smaller overlap refutes a reported depth; a ball "
+            "contained in both shapes bounds the depth from below by its diameter; two certified runs with the geoms swapped report "
+            "the same distance and opposite witness vectors within the certified gaps. The GJK/EPA iterations are NOT modelled: "
             "every output of the real code is checked per call by the same checker definitions compiled to native code.",
     "note": "partial: correctness of GJK/EPA is established per sampled output through the certificates, not for all inputs; for "
-            "penetration only the upper bound of the depth is certified, the lower bound (no direction with a smaller overlap) is "
-            "searched; theorems are over the reals (Float evaluation of the checkers carries rounding, absorbed by the stated "
-            "tolerances); the libccd path (mjDSBL_NATIVECCD) is stubbed in this build and not exercised; convex meshes are covered "
-            "for the support function only (qhull is stubbed, no mesh pairs); margins are exercised through mjc_Convex only.",
+            "penetration the upper bound of the depth is certified, the lower bound (no direction with a smaller overlap) is "
+            "searched (a found direction is a proof that the reported depth is too large, not finding one proves nothing); "
+            "theorems are over the reals (Float evaluation of the checkers carries rounding, absorbed by the stated tolerances); "
+            "tolerances are calibrated against what the unmodified solver achieves with ccd_iterations=1000 (EPA normals are only "
+            "accurate to a few 1e-3..1e-2 of the pair's scale; see evidence.tolerances / max_observed), not against ccd_tolerance; "
+            "random sampling is restricted to scales {1, 0.1} and offsets <= 1 from the origin because of finding "
+            "c15:gjk-simplex-precision-loss (larger geoms / offsets are covered by fixed directed inputs); witness points of "
+            "penetrating answers are not required to lie in the geoms (EPA extrapolates them affinely on flat faces); mjc_Convex on "
+            "box-box (8-point multicontact, not used by the pipeline) is not judged; the libccd path (mjDSBL_NATIVECCD) is stubbed in "
+            "this build and not exercised; convex meshes are covered for the support function only (qhull is stubbed, no mesh "
+            "pairs); margins are exercised through mjc_Convex only. Known findings reported by this oracle on the unmodified tree: "
+            "c15:coincident-centres-no-penetration, c15:gjk-simplex-precision-loss, c15:epa-depth-for-touching-geoms.",
 }
 
 THEOREMS = [
@@ -48,7 +62,9 @@ THEOREMS = [
     "MjProof.C15.degSlack_zero",
     "MjProof.C15.mesh_support_maximises",
     "MjProof.C15.distance_certificate",
+    "MjProof.C15.distance_lower_bound",
     "MjProof.C15.penetration_certificate_partial",
+    "MjProof.C15.depth_upper_bound_partial",
     "MjProof.C15.reported_depth_refuted",
     "MjProof.C15.depth_lower_of_inner_ball",
     "MjProof.C15.setDist_symm",
@@ -777,7 +793,8 @@ def oracle_pairs(ctx, impl, drv, cases, stats=None):
                     rel("sep_gap_abs:%s" % cls, gap, who)
                     rel("sep_|dist-len|/tolerance", abs(c.dist - k["len"]) / tol_sep(sc, c.k), who)
                     rel("sep_witness_scale_k-1", c.k - 1.0, who)
-                best_lower = max(c.cert["bound"], c.lower[1] if c.lower is not None else -1e300)
+                best_lower = max(c.cert["bound"], c.cert2["bound"] if c.cert2 is not None else -1e300,
+                                 c.lower[1] if c.lower is not None else -1e300)
                 if not tiny:
                     rel("sep_(certified_lower_bound-dist)/tolerance", (best_lower - c.dist) / (SEP_REL_BELOW * sc + SEP_ABS), who)
                 if best_lower > c.dist + SEP_REL_BELOW * sc + SEP_ABS and not tiny:
@@ -790,19 +807,16 @@ def oracle_pairs(ctx, impl, drv, cases, stats=None):
                     touching(c)
                 elif not c.ok:
                     t = tol_sep(sc, c.k)
-                    if False:
-                        pass
+                    if not (k["memA"] and k["memB"]):
+                        why = "witness point outside its geom even after scaling the geom by %.6g (memA=%s memB=%s)" % (c.k, k["memA"], k["memB"])
+                    elif not gap <= t:
+                        why = "reported distance %.17g: witness distance %.17g (+%.3g for shrinking the witnesses into the geoms) but the best " \
+                              "certified lower bound is %.17g (gap %.3g > %.3g)" % (c.dist, k["len"], k["slack"], k["len"] + k["slack"] - gap, gap, t)
                     else:
-                        if not (k["memA"] and k["memB"]):
-                            why = "witness point outside its geom even after scaling the geom by %.6g (memA=%s memB=%s)" % (c.k, k["memA"], k["memB"])
-                        elif not gap <= t:
-                            why = "reported distance %.17g: witness distance %.17g (+%.3g for shrinking the witnesses into the geoms) but the best " \
-                                  "certified lower bound is %.17g (gap %.3g > %.3g)" % (c.dist, k["len"], k["slack"], k["len"] + k["slack"] - gap, gap, t)
-                        else:
-                            why = "reported distance %.17g differs from the distance of its witness points %.17g" % (c.dist, k["len"])
-                        if proven_depth > 0:
-                            why += "; the geoms actually penetrate by at least %.6g (inner ball, Lean-certified)" % proven_depth
-                        fail("c15:separated-distance-not-certified", why, c)
+                        why = "reported distance %.17g differs from the distance of its witness points %.17g" % (c.dist, k["len"])
+                    if proven_depth > 0:
+                        why += "; the geoms actually penetrate by at least %.6g (inner ball, Lean-certified)" % proven_depth
+                    fail("c15:separated-distance-not-certified", why, c)
             elif c.kind == "pen":
                 okp, bound = c.pend
                 depth = -c.dist
@@ -872,13 +886,26 @@ def oracle_pairs(ctx, impl, drv, cases, stats=None):
             dv = norm(sub(sub(c1.x2, c1.x1), sub(c2.x1, c2.x2)))
             if c1.cert["len"] > 1e-3 * sc:
                 rel("swap_witness_vector_dev/len:sep", dv / c1.cert["len"], "%s#%d" % (info["regime"], ci))
+            # swap_symmetry_of_certified: ||v - v'||^2 <= rho^2 - l^2 + 2 l gap  (v, v': witness vectors from A to B of the two runs)
+            k1 = c1.cert2 if (c1.cert2 is not None and c1.cert2["ok"]) else c1.cert
+            k2 = c2.cert2 if (c2.cert2 is not None and c2.cert2["ok"]) else c2.cert
+            g1 = max(0.0, k1["len"] + k1["slack"] - k1["bound"])
+            rho = k2["len"] + k2["slack"]
+            lim = math.sqrt(max(0.0, rho * rho - k1["len"] ** 2 + 2 * k1["len"] * g1)) + k1["slack"] + k2["slack"] + 1e-9 * sc
             if dd > 2 * (tol_sep(sc, c1.k) + tol_sep(sc, c2.k)):
                 fail("c15:swap-distance-differs", "certified distances of the two geom orders differ: %.17g vs %.17g" % (c1.dist, c2.dist), c1)
+            elif dv > 10 * lim + 1e-7 * sc:
+                fail("c15:swap-normal-not-reversed", "the witness vectors of the two geom orders differ by %.3g although both are certified "
+                     "(limit %.3g from the certified gaps, Props swap_symmetry_of_certified)" % (dv, lim), c1)
         elif c1 is not None and c2 is not None and c1.kind == c2.kind == "pen":
-            rel("swap_|depth-depth'|/scale:pen", abs(c1.dist - c2.dist) / sc)
+            dd = abs(c1.dist - c2.dist)
+            rel("swap_|depth-depth'|/scale:pen", dd / sc, "%s#%d" % (info["regime"], ci))
             n1, n2 = unit(c1.w) if norm(c1.w) > 0 else None, unit(c2.w) if norm(c2.w) > 0 else None
             if n1 and n2 and -c1.dist > 1e-3 * sc:
-                rel("swap_normal_|n+n'|:pen", norm(add(n1, n2)), "%s#%d" % (info["regime"], ci))
+                # informational: the depth-minimising normal need not be unique (symmetric configurations)
+                rel("swap_normal_|n+n'|:pen(informational)", norm(add(n1, n2)), "%s#%d" % (info["regime"], ci))
+            if not case_fail and dd > 2 * (REF_REL * sc + REF_ABS) + 2 * (PEN_REL * sc + PEN_ABS):
+                fail("c15:swap-depth-differs", "depths reported for the two geom orders differ: %.17g vs %.17g" % (-c1.dist, -c2.dist), c1)
         if case_fail:
             failures.append(case_fail[0])
             bump(stats.setdefault("failing_cases_by_key", {}), case_fail[0][0])
